@@ -284,11 +284,11 @@ impl Engine for C13 {
     fn info(&self) -> EngineInfo {
         EngineInfo {
             level: "fault_enumeration",
-            rule: "Each run is one simulated message: a seeded originator produces a valid value of one of 24 type families (reference-encoded by the harness, tagged or untagged), which is delivered pristine to all 31 endpoints; at every endpoint that accepts it, cut(k) is enumerated for EVERY k in 0..len (bstr endpoint: 1..len; 1 message in 300 exceeds 64 KiB and has its cut points sampled at both ends, 256 evenly spaced points and around 2^8 / 2^16), append(s) for a 24-byte single-byte palette plus a valid item, the message itself (dup), the next message (coalesce) and seeded garbage, and inner-cut(k) for every k / inner-append(s) on every protected-header bstr with the outer framing rewritten; every delivery is also run through the Value-level route. evaluations = faulted deliveries. A case is non-trivial when the pristine message is accepted by at least one endpoint and is at least 2 bytes long; distinct = distinct pristine byte strings (64-bit hash).",
+            rule: "Each run is one simulated message: a seeded originator produces a valid value of one of 24 type families (reference-encoded by the harness, tagged or untagged), which is delivered pristine to all 31 endpoints; at every endpoint that accepts it, cut(k) is enumerated for EVERY k in 0..len (bstr endpoint: 1..len; 1 message in 300 exceeds 64 KiB and has its cut points sampled at both ends, 256 evenly spaced points and around 2^8 / 2^16), append(s) for a 24-byte single-byte palette (all 256 bytes for a quarter of the messages), padding to 4/8/16-byte boundaries with 00/ff/20, line ends, break bytes, plus a valid item, the message itself (dup), the next message (coalesce) and seeded garbage, and inner-cut(k) for every k / inner-append(s) on every protected-header bstr with the outer framing rewritten; every delivery is also run through the Value-level route. evaluations = faulted deliveries. A case is non-trivial when the pristine message is accepted by at least one endpoint and is at least 2 bytes long; distinct = distinct pristine byte strings (64-bit hash).",
             distinct_classes: &["(endpoint, fault kind, outcome class) triples", "(sender type, accepting endpoint) pairs"],
             assumptions: &[
                 "exhaustive over cut points per message; sampled over messages and suffixes",
-                "traffic is canonical CBOR (definite lengths) produced by the harness's own encoder from model values",
+                "traffic is produced by the harness's own encoder from model values: canonical CBOR, and for a quarter of the messages a seeded non-canonical re-encoding (wide heads, indefinite lengths)",
                 "layer agreement compares coset's byte-level API with parse-then-convert through coset's own Value conversions",
                 "inner faults are judged only at the sender type's own endpoints (other endpoints may read the same bytes as opaque parameters)",
             ],
@@ -337,6 +337,20 @@ impl Engine for C13 {
                 t.set_meta("type", bigty);
                 t.set_meta("form", if t2 { "tagged" } else { "untagged" });
                 t.set_meta("size", "large");
+            }
+        }
+        // a quarter of the (small) messages travel in a non-canonical but valid encoding: wide heads,
+        // indefinite-length strings / arrays / maps (a relay that re-serialises)
+        if t.meta("size").is_none() && rng.chance(1, 4) {
+            if let Ok(item) = refcbor::read_exact(&msg) {
+                let mut out = Vec::new();
+                let widen = rng.range(0, 6) as u32;
+                let indef = rng.range(1, 8) as u32;
+                refcbor::write_item(&item, &mut out, &mut refcbor::Seeded { rng: &mut rng, widen, indef });
+                if out.len() <= max_len(tier) && out != msg {
+                    msg = out;
+                    t.set_meta("encoding", "non-canonical");
+                }
             }
         }
         let nty = MESSAGE_TYPES[rng.below(MESSAGE_TYPES.len())];
@@ -450,9 +464,30 @@ impl Engine for C13 {
         // suffixes that push the total length beyond 2^16 (size-dependent code paths)
         faults.push(Fault::Append(vec![0u8; 65_537], "append(64KiB+ zeros)"));
         faults.push(Fault::Append(crate::palette::pat(70_000, 0x5a), "append(64KiB+ garbage)"));
-        for b in SUFFIX_BYTES {
-            faults.push(Fault::Append(vec![*b], "append(byte)"));
+        if crate::util::hash_bytes(&msg) % 4 == 0 {
+            // a quarter of the messages get every one of the 256 single-byte suffixes
+            for b in 0..=255u8 {
+                faults.push(Fault::Append(vec![b], "append(byte)"));
+            }
+        } else {
+            for b in SUFFIX_BYTES {
+                faults.push(Fault::Append(vec![*b], "append(byte)"));
+            }
         }
+        // padding and text-transport artefacts: zero / 0xff / space padding up to the next 4-, 8- and
+        // 16-byte boundary, a fixed 16-byte zero block, line ends
+        for fill in [0x00u8, 0xff, 0x20] {
+            for b in [4usize, 8, 16] {
+                let pad = (b - msg.len() % b) % b;
+                if pad > 0 {
+                    faults.push(Fault::Append(vec![fill; pad], "append(padding)"));
+                }
+            }
+        }
+        faults.push(Fault::Append(vec![0u8; 16], "append(padding)"));
+        faults.push(Fault::Append(vec![0x0a], "append(line-end)"));
+        faults.push(Fault::Append(vec![0x0d, 0x0a], "append(line-end)"));
+        faults.push(Fault::Append(vec![0xff, 0xff], "append(breaks)"));
         faults.push(Fault::Append(vec![0x83, 0x01, 0x02, 0x03], "append(item)"));
         faults.push(Fault::Append(msg.clone(), "dup"));
         if !next.is_empty() {
